@@ -1,17 +1,46 @@
-(* ChainAddr.v — C16 at every depth: a path of name steps, each in any of the three spellings, returns exactly the
-   member reached by following the names through nested objects, and nothing when a name is missing on the way. *)
-From JP Require Import Peg Grammar Text Tree Actions Json Eval WF Spec EvalInv1 EvalInv4 EvalTop EndToEnd Codec KeyDefs KeyParse ChainParse.
+(* ChainAddr.v — every node of a document is addressable, from the path text: a path of name steps (each in any of
+   the three spellings) and index steps [digits] returns exactly the value reached by following the names and
+   indexes through the nested objects and arrays (with that location in accessor mode), and nothing when a
+   name or index is missing on the way. *)
+From JP Require Import Peg Grammar Slice Text Tree Actions Json Eval WF Spec EvalInv1 EvalInv4 EvalTop EndToEnd Codec KeyDefs KeyParse IdxParse ChainParse.
+From Coq Require Import Lia.
 Open Scope list_scope.
 
-(* following names through nested objects *)
-Fixpoint lookup_chain (v : value) (keys : list string) : option value :=
-  match keys with
-  | [] => Some v
-  | k :: r => match v with
-              | VObj m => match lookup m k with Some x => lookup_chain x r | None => None end
-              | _ => None
-              end
+(* one navigation step, and a whole chain of them *)
+Definition nav (v : value) (s : kstep) : option value :=
+  match s with
+  | SIdx ds => match v with VArr xs => nth_value xs (step_idx ds) | _ => None end
+  | _ => match v with VObj m => lookup m (step_key s) | _ => None end
   end.
+Fixpoint nav_chain (v : value) (steps : list kstep) : option value :=
+  match steps with
+  | [] => Some v
+  | s :: r => match nav v s with Some x => nav_chain x r | None => None end
+  end.
+Definition step_loc (s : kstep) : pstep := match s with SIdx ds => PIdx (step_idx ds) | _ => PKey (step_key s) end.
+
+Lemma digits_val_nonneg ds : forall acc z, (0 <= acc)%Z -> digits_val ds acc = Some z -> (0 <= z)%Z.
+Proof.
+  induction ds as [|d ds IH]; intros acc z Ha H; cbn [digits_val] in H.
+  - inversion H; subst. exact Ha.
+  - unfold digit_val in H. destruct ((48 <=? d)%N && (d <=? 57)%N); [|discriminate].
+    pose proof (N2Z.is_nonneg (d - 48)) as Hn. apply (IH (acc * 10 + Z.of_N (d - 48))%Z z); [lia|exact H].
+Qed.
+Lemma step_idx_nonneg ds : forallb is_digit ds = true -> (0 <= step_idx ds)%Z.
+Proof.
+  intros Hd. unfold step_idx. destruct (atoi ds) as [z|] eqn:E; [|lia].
+  unfold atoi in E. destruct ds as [|d ds]; [discriminate E|].
+  cbn [forallb] in Hd. apply andb_true_iff in Hd. destruct Hd as [H1 _]. destruct (digit_bounds d H1) as [B1 B2].
+  assert (E1 : (d =? 45)%N = false) by (apply N.eqb_neq; lia). assert (E2 : (d =? 43)%N = false) by (apply N.eqb_neq; lia).
+  rewrite E1, E2 in E. destruct (digits_val (d :: ds) 0) as [v|] eqn:Ev; [|discriminate E].
+  destruct (in64b v); [|discriminate E]. inversion E; subst. exact (digits_val_nonneg (d :: ds) 0%Z z (Z.le_refl 0) Ev).
+Qed.
+Lemma nth_value_out : forall xs i, (Z.of_nat (List.length xs) <= i)%Z -> nth_value xs i = None.
+Proof.
+  induction xs as [|x xs IH]; intros i H; cbn [nth_value]; [reflexivity|]. cbn [List.length] in H.
+  assert (E0 : (i =? 0)%Z = false) by (apply Z.eqb_neq; lia). assert (E1 : (i <? 0)%Z = false) by (apply Z.ltb_ge; lia).
+  rewrite E0, E1. apply IH. lia.
+Qed.
 
 Section ChainAddr.
   Variable cfg : config.
@@ -31,69 +60,94 @@ Section ChainAddr.
   Lemma last_basic_acc s r : accessor (last_basic s r) = cfg_accessor cfg.
   Proof. revert s. induction r as [|x r IH]; intros s; [reflexivity|apply IH]. Qed.
 
-  Lemma sp_chain : forall r s root p v,
+  (* the specification of one step of the chain: navigate, then go on *)
+  Lemma sp_step s b next root p v : step_ok s = true ->
+    sp (Node (step_kind s) b next) root (Some p, v) =
+    match nav v s with
+    | Some x => match next with
+                | OSome nx => sp nx root (Some (p ++ [step_loc s]), x)
+                | ONone => [(b, true, (Some (p ++ [step_loc s]), x))]
+                end
+    | None => []
+    end.
+  Proof.
+    intros Hs. destruct s as [q k|k|ds].
+    - cbn [step_kind nav step_loc]. cbn [Spec.sp snd fst]. destruct v; reflexivity.
+    - cbn [step_kind nav step_loc]. cbn [Spec.sp snd fst]. destruct v; reflexivity.
+    - destruct ds as [|d ds]; [discriminate Hs|]. cbn [step_ok] in Hs. apply andb_true_iff in Hs. destruct Hs as [Hd _].
+      pose proof (step_idx_nonneg (d :: ds) Hd) as Hz. set (z := step_idx (d :: ds)) in *.
+      cbn [step_kind nav step_loc]. fold z. cbn [Spec.sp snd fst]. destruct v; try reflexivity.
+      cbn [flat_map get_indexes]. unfold get_indexes_index.
+      cbv zeta. assert (E0 : (z <? 0)%Z = false) by (apply Z.ltb_ge; exact Hz). rewrite !E0. cbn [orb].
+      destruct (z >=? Z.of_nat (List.length l))%Z eqn:Eg.
+      + rewrite nth_value_out by (apply Z.geb_le in Eg; lia). reflexivity.
+      + cbn [flat_map]. rewrite !app_nil_r. destruct (nth_value l z); [|reflexivity]. cbn [fst snd ext_loc]. destruct next; reflexivity.
+  Qed.
+
+  Lemma sp_chain : forall r s root p v, forallb step_ok (s :: r) = true ->
     sp (chain_node cfg s r) root (Some p, v) =
-    match lookup_chain v (step_key s :: map step_key r) with
-    | Some x => [(last_basic s r, true, (Some (p ++ map PKey (step_key s :: map step_key r)), x))]
+    match nav_chain v (s :: r) with
+    | Some x => [(last_basic s r, true, (Some (p ++ map step_loc (s :: r)), x))]
     | None => []
     end.
   Proof.
-    induction r as [|x r IH]; intros s root p v.
-    - unfold chain_node. cbn [chain1 map lookup_chain last_basic]. cbn [Spec.sp snd fst].
-      destruct v; try reflexivity. destruct (lookup m (step_key s)); reflexivity.
-    - unfold chain_node. cbn [chain1 map lookup_chain last_basic].
-      change (sp (Node (KSingle (step_key s)) (fin_basic cfg s (x :: r)) (OSome (Node (KSingle (step_key x)) (fin_basic cfg x r) (chain1 cfg r)))) root (Some p, v))
-        with (match v with
-              | VObj m => match lookup m (step_key s) with
-                          | Some y => sp (chain_node cfg x r) root (ext_loc (Some p) (PKey (step_key s)), y)
-                          | None => []
-                          end
-              | _ => []
-              end).
-      destruct v; try reflexivity. destruct (lookup m (step_key s)) as [y|]; [|reflexivity].
-      cbn [ext_loc]. rewrite IH. cbn [map]. rewrite <- app_assoc. reflexivity.
+    induction r as [|x r IH]; intros s root p v Hs; cbn [forallb] in Hs; apply andb_true_iff in Hs; destruct Hs as [H1 H2].
+    - unfold chain_node. cbn [chain1]. rewrite sp_step by exact H1. cbn [nav_chain map last_basic].
+      destruct (nav v s); reflexivity.
+    - unfold chain_node. cbn [chain1]. rewrite sp_step by exact H1. cbn [nav_chain last_basic].
+      destruct (nav v s) as [y|]; [|reflexivity].
+      change (Node (step_kind x) (fin_basic cfg x r) (chain1 cfg r)) with (chain_node cfg x r).
+      rewrite IH by exact H2. cbn [map]. rewrite <- app_assoc. reflexivity.
   Qed.
 
-  Definition chain_result (keys : list string) (v : value) : res :=
-    if cfg_accessor cfg then RAcc true (Some (map PKey keys)) v else RVal v.
+  Definition chain_result (steps : list kstep) (v : value) : res :=
+    if cfg_accessor cfg then RAcc true (Some (map step_loc steps)) v else RVal v.
 
-  Lemma spec_chain s r doc :
+  Lemma spec_chain s r doc : forallb step_ok (s :: r) = true ->
     spec_results ffun afun regex_match (chain_node cfg s r) doc =
-    match lookup_chain doc (map step_key (s :: r)) with
-    | Some x => [chain_result (map step_key (s :: r)) x]
+    match nav_chain doc (s :: r) with
+    | Some x => [chain_result (s :: r) x]
     | None => []
     end.
   Proof.
-    unfold spec_results. rewrite sp_chain. cbn [map app]. destruct (lookup_chain doc (step_key s :: map step_key r)) as [x|]; [|reflexivity].
-    cbn [map wrap]. rewrite last_basic_acc. unfold chain_result. cbn [map fst snd]. destruct (cfg_accessor cfg); reflexivity.
+    intros Hs. unfold spec_results. rewrite sp_chain by exact Hs. cbn [app]. destruct (nav_chain doc (s :: r)) as [x|]; [|reflexivity].
+    cbn [map wrap]. rewrite last_basic_acc. unfold chain_result. cbn [fst snd]. destruct (cfg_accessor cfg); reflexivity.
   Qed.
 
-  (* every member at every depth is addressable, in any mixture of the three spellings *)
+  (* every node of the document is addressable by the path that spells its location *)
   Theorem chain_addressable s r doc v st : forallb step_ok (s :: r) = true -> small doc -> ok st ->
-    lookup_chain doc (map step_key (s :: r)) = Some v ->
-    exists t, parse (chain_path (s :: r)) = ParseOk t /\
-              fst (eval_run t doc st) = OOk [chain_result (map step_key (s :: r)) v].
+    nav_chain doc (s :: r) = Some v ->
+    exists t, parse (chain_path (s :: r)) = ParseOk t /\ fst (eval_run t doc st) = OOk [chain_result (s :: r) v].
   Proof.
     intros Hs Hd Hok Hl. exists (chain_node cfg s r).
     pose proof (parse_chain_path cfg parse_float regex_ok s r Hs) as Hp. split; [exact Hp|].
     pose proof (retrieve_end_to_end cfg parse_float regex_ok ffun afun regex_match ffun_small afun_small (chain_path (s :: r)) doc st Hd Hok) as H.
-    rewrite Hp in H. rewrite spec_chain, Hl in H.
+    rewrite Hp in H. rewrite (spec_chain s r doc Hs), Hl in H.
     destruct (fst (eval_run (chain_node cfg s r) doc st)) as [rs|e|pn].
     - destruct H as [H _]. rewrite H. reflexivity.
     - destruct H as [H _]. discriminate.
     - contradiction.
   Qed.
   Theorem chain_absent s r doc st : forallb step_ok (s :: r) = true -> small doc -> ok st ->
-    lookup_chain doc (map step_key (s :: r)) = None ->
+    nav_chain doc (s :: r) = None ->
     exists t e, parse (chain_path (s :: r)) = ParseOk t /\ fst (eval_run t doc st) = OErr e.
   Proof.
     intros Hs Hd Hok Hl. exists (chain_node cfg s r).
     pose proof (parse_chain_path cfg parse_float regex_ok s r Hs) as Hp.
     pose proof (retrieve_end_to_end cfg parse_float regex_ok ffun afun regex_match ffun_small afun_small (chain_path (s :: r)) doc st Hd Hok) as H.
-    rewrite Hp in H. rewrite spec_chain, Hl in H.
+    rewrite Hp in H. rewrite (spec_chain s r doc Hs), Hl in H.
     destruct (fst (eval_run (chain_node cfg s r) doc st)) as [rs|e|pn].
     - destruct H as [H1 [H2 _]]. contradiction (H2 H1).
     - exists e. split; [exact Hp|reflexivity].
     - contradiction.
   Qed.
 End ChainAddr.
+
+(* the decimal spelling of an index is an index step that means that index *)
+From JP Require Import DecFacts.
+Lemma idx_step_ok n : (Z.of_N n < 2 ^ 63)%Z -> step_ok (SIdx (dec n)) = true /\ step_idx (dec n) = Z.of_N n.
+Proof.
+  intros Hn. destruct (atoi_dec n Hn) as (Ha & Hd & Hne). unfold step_idx. rewrite Ha. split; [|reflexivity].
+  cbn [step_ok]. destruct (dec n) as [|c r] eqn:E; [contradiction Hne; reflexivity|].
+  rewrite Ha. change is_digit with is_digitZ. rewrite Hd. reflexivity.
+Qed.
